@@ -175,6 +175,15 @@ def gen_case(rng, idx, tier):
         if (x, y) not in routed and rng.random() < 0.3:
             chips.append([x, y, dict(nc=18, states=[7] + [IDLE] * 17, links=63, sdram=1, sram=1, rtr=1, eth_up=0,
                                      ip=[0, 0, 0, 0], eth=[0, 0], answer="ok")])
+    # "ghost" chips: outside the booted dimensions, with a table entry and an answer (never to be reported)
+    if w and h and rng.random() < 0.35:
+        for _ in range(rng.randint(1, 3)):
+            x, y = rng.choice([(rng.randrange(w), h + rng.randrange(0, 8)), (w, rng.randrange(h)),
+                               (rng.randrange(w), h)])
+            if x < 256 and y < 256 and not any(r[0] == x and r[1] == y for r in routes):
+                routes.append([x, y, rng.choice([0, 1, 2, 3, 4, 5])])
+                chips.append([x, y, dict(nc=18, states=[7] + [IDLE] * 17, links=63, sdram=5, sram=5, rtr=5, eth_up=0,
+                                         ip=[0, 0, 0, 0], eth=[0, 0], answer="ok")])
     if not any((x, y) == boot for x, y, _ in chips):
         chips.append([boot[0], boot[1], dict(nc=18, states=[7] + [IDLE] * 17, links=63, sdram=1, sram=1, rtr=1,
                                              eth_up=0, ip=[0, 0, 0, 0], eth=[0, 0], answer="ok")])
